@@ -130,11 +130,42 @@ fn c01_check(case: &SimCase, st: &mut Stats) -> Result<(), String> {
     run.result
 }
 
+
+// ---------------------------------------------------------------------------------------------
+// Whole-replica run-loop part (runloop.rs), shared by C01 / C03 / C06 with one oracle each
+
+fn run_loop_part(env: &Env, oracle: crate::runloop::Oracle, oracle_text: &str, cases: u64) -> Vec<PartReport> {
+    use crate::runloop::{check, gen_case as gen_loop, LoopCase, DESCRIPTION};
+    let quick = matches!(env.tier, common::Tier::Quick);
+    let mut parts: Vec<PartReport> = vec![];
+    parts.extend(common::run_regress::<LoopCase>(env, "run_loop", move |c, st| check(c, st, oracle)));
+    parts.push(run_proptest(
+        env,
+        "run_loop",
+        &format!("{DESCRIPTION}; oracle: {oracle_text}. Non-trivial = the prefix reached view 2, a block was committed and the prefix lost copies or restarted a node (or a node was down at heal time)"),
+        PartOpts { cases, max_shrink_iters: 60, samples: 2 },
+        move || Choices::strategy(400).prop_map(move |mut ch| gen_loop(&mut ch, quick)),
+        move |c, st| check(c, st, oracle),
+    ));
+    parts
+}
+
+fn replay_run_loop(env: &Env, path: &std::path::Path, oracle: crate::runloop::Oracle) -> Option<i32> {
+    let (part, case) = Env::read_replay(path);
+    if part.starts_with("run_loop") {
+        return Some(env.finish_replay(path, common::replay_case::<crate::runloop::LoopCase>(case, move |c, st| crate::runloop::check(c, st, oracle))));
+    }
+    None
+}
+
 const BYZ: Profile = Profile { max_n: 7, byzantine: true, crashes: true, floods: false, absurd: false, variants: false, len: 40 };
 const CRASHY: Profile = Profile { max_n: 5, byzantine: false, crashes: true, floods: false, absurd: false, variants: false, len: 50 };
 
 pub fn c01(env: &Env) -> i32 {
     if let Mode::Replay(path) = env.mode() {
+        if let Some(code) = replay_run_loop(env, &path, crate::runloop::Oracle::Agreement) {
+            return code;
+        }
         let (_, case) = Env::read_replay(&path);
         return env.finish_replay(&path, common::replay_case::<SimCase>(case, c01_check));
     }
@@ -158,6 +189,12 @@ pub fn c01(env: &Env) -> i32 {
         PartOpts { cases: env.tier.pick(400, 2_000), max_shrink_iters: 60, samples: 2 },
         || Choices::strategy(400).prop_map(|mut ch| gen_case(&mut ch, &CRASHY)),
         c01_check,
+    ));
+    parts.extend(run_loop_part(
+        env,
+        crate::runloop::Oracle::Agreement,
+        "after every operation and at the end, per block number every payload any node ever handed to storage or stores is the same, and within one incarnation a node hands blocks over in contiguous increasing order",
+        env.tier.pick(160, 1_600),
     ));
     env.finish(
         "exploration",
@@ -310,6 +347,9 @@ const EQUIV_SMALL: Profile = Profile { max_n: 4, byzantine: false, crashes: fals
 
 pub fn c03(env: &Env) -> i32 {
     if let Mode::Replay(path) = env.mode() {
+        if let Some(code) = replay_run_loop(env, &path, crate::runloop::Oracle::Votes) {
+            return code;
+        }
         let (_, case) = Env::read_replay(&path);
         return env.finish_replay(&path, common::replay_case::<C03Case>(case, c03_check));
     }
@@ -328,6 +368,12 @@ pub fn c03(env: &Env) -> i32 {
             c03_check,
         ));
     }
+    parts.extend(run_loop_part(
+        env,
+        crate::runloop::Oracle::Votes,
+        "over everything each key ever put on the wire (all incarnations, in emission order): no two different commit votes per view, no commit vote at or below an earlier timeout vote, vote views never decrease; and every vote taken from a node's outbound channel is already recorded by that node's durable replica state (crashes here are sampled by the generator, not enumerated)",
+        env.tier.pick(160, 1_600),
+    ));
     env.finish(
         "fault_enumeration",
         "every durable-write point x {lost, applied} of each generated schedule; the schedules themselves are sampled",
@@ -629,6 +675,9 @@ fn c06_check(case: &SimCase, st: &mut Stats) -> Result<(), String> {
 
 pub fn c06(env: &Env) -> i32 {
     if let Mode::Replay(path) = env.mode() {
+        if let Some(code) = replay_run_loop(env, &path, crate::runloop::Oracle::Progress) {
+            return code;
+        }
         let (_, case) = Env::read_replay(&path);
         return env.finish_replay(&path, common::replay_case::<SimCase>(case, c06_check));
     }
@@ -645,6 +694,12 @@ pub fn c06(env: &Env) -> i32 {
             c06_check,
         ));
     }
+    parts.extend(run_loop_part(
+        env,
+        crate::runloop::Oracle::Progress,
+        "after the heal every node that runs makes a new block durable (beyond the highest block any node had at heal time) within 12 view timeouts of virtual time plus one view timeout per view whose leader is silent; a run loop that ends with an error or panics is a failure",
+        env.tier.pick(240, 2_400),
+    ));
     env.finish(
         "exploration",
         "bounded liveness on a fair suffix after generated adversarial prefixes; 'eventually' under unbounded asynchrony is out of reach of testing",
